@@ -156,7 +156,7 @@ func genPosCase(t *rapid.T) posCase {
 	c.Steps = append(c.Steps, posStep{Cmd: posCmd{FEN: fenText, Moves: append([]string(nil), moves...)}})
 	n := rapid.IntRange(1, 7).Draw(t, "nsteps")
 	for i := 0; i < n; i++ {
-		rel := rapid.SampledFrom([]string{"verbatim", "extend", "extend", "extend", "truncate", "other-line", "fresh", "fen-textual-extension", "fen-of-current", "fen-of-current", "ucinewgame"}).Draw(t, "rel")
+		rel := rapid.SampledFrom([]string{"verbatim", "extend", "extend", "extend", "truncate", "other-line", "fresh", "fen-textual-extension", "fen-of-current", "fen-of-current", "case-twin", "ucinewgame"}).Draw(t, "rel")
 		switch rel {
 		case "ucinewgame":
 			c.Steps = append(c.Steps, posStep{NewGame: true})
@@ -181,6 +181,57 @@ func genPosCase(t *rapid.T) posCase {
 			fenText, g = start()
 			moves = nil
 			play(rapid.IntRange(0, 6).Draw(t, "plies"))
+		case "case-twin":
+			// the previous set-up FEN with the letter case of the castling field (or of the whole
+			// placement) swapped: text equal up to case, a different game
+			base := fenText
+			if base == "" {
+				base = oracle.InitialFEN
+			}
+			f := strings.Split(base, " ")
+			swap := func(s string) string {
+				var sb strings.Builder
+				for _, r := range s {
+					switch {
+					case r >= 'a' && r <= 'z':
+						sb.WriteRune(r - 32)
+					case r >= 'A' && r <= 'Z':
+						sb.WriteRune(r + 32)
+					default:
+						sb.WriteRune(r)
+					}
+				}
+				return sb.String()
+			}
+			if rapid.Bool().Draw(t, "castlingonly") && f[2] != "-" {
+				f[2] = swap(f[2])
+				// canonical order KQkq
+				o := ""
+				for _, c := range "KQkq" {
+					if strings.ContainsRune(f[2], c) {
+						o += string(c)
+					}
+				}
+				f[2] = o
+			} else {
+				f[0], f[2] = swap(f[0]), "-"
+				f[3] = "-"
+			}
+			st, err := oracle.ParseFEN(strings.Join(f, " "))
+			if err != nil || st.Pos.InCheck(!st.Pos.White) || st.Pos.KingSq(true) < 0 || st.Pos.KingSq(false) < 0 {
+				continue
+			}
+			// rights only where king and rook are at home (well-formed)
+			if (st.Pos.WK && (st.Pos.Sq[oracle.E1] != oracle.King || st.Pos.Sq[oracle.H1] != oracle.Rook)) ||
+				(st.Pos.WQ && (st.Pos.Sq[oracle.E1] != oracle.King || st.Pos.Sq[oracle.A1] != oracle.Rook)) ||
+				(st.Pos.BK && (st.Pos.Sq[oracle.E8] != -oracle.King || st.Pos.Sq[oracle.H8] != -oracle.Rook)) ||
+				(st.Pos.BQ && (st.Pos.Sq[oracle.E8] != -oracle.King || st.Pos.Sq[oracle.A8] != -oracle.Rook)) {
+				continue
+			}
+			fenText = st.FEN()
+			g = oracle.NewGame(st)
+			moves = nil
+			play(rapid.IntRange(0, 3).Draw(t, "plies"))
 		case "fen-of-current":
 			// some GUIs re-send the current position as a FEN (same six fields the engine reports),
 			// with or without further moves: it describes a NEW game without the earlier history
